@@ -754,6 +754,9 @@ where
     pin_mut!(job_futures);
     {
         let mut seen: HashSet<RedoPathBuf> = HashSet::new();
+        // Different spellings ("a", "./a", "d/../a") name the same file: deduplicate
+        // by database id too, since the lock registry allows one Lock per id.
+        let mut seen_ids: HashSet<i64> = HashSet::new();
         for i in target_order.iter().copied() {
             let t = targets[i].as_ref();
             if t.is_empty() {
@@ -788,6 +791,9 @@ where
                     .map_err(RedoError::opaque_error)?;
                 ptx.set_drop_behavior(DropBehavior::Commit);
                 let mut f = state::File::from_name(&mut ptx, t, true)?;
+                if !seen_ids.insert(f.id()) {
+                    continue;
+                }
                 let mut lock = ptx.state().new_lock(f.id().try_into().unwrap());
                 if ptx.state().env().unlocked {
                     lock.force_owned();
